@@ -306,6 +306,9 @@ class Scheduler(Subject):
                 for i, input_parameter in enumerate(call_api.input_parameters):
                     if isinstance(input_parameter, List):
                         for j, element in enumerate(input_parameter):
+                            # only array indexes ("[i]") are substituted, not attributes named like the variable
+                            if not (element.startswith("[") and element.endswith("]")):
+                                continue
                             counting_variable = element.replace("[", "").replace("]", "")
                             if counting_variable in current_loop_counters:
                                 value = current_loop_counters[counting_variable]
